@@ -7,7 +7,7 @@
 (* the harness maps to bytes:                                              *)
 (*    "E" = e-acute (a two-byte character)   "B" = backslash               *)
 (*    "N" = LF    "T" = TAB (0x09)   "G" = BEL (0x07)   "S" = ESC (0x1b)   *)
-(*    "Z" = a byte that is not valid UTF-8 on its own (0xE9)               *)
+(*    "Z" = a byte that is not valid UTF-8 on its own (0xE9), "Y" = another one (0xE8)  *)
 (*    "R" = CR (0x0d): an ordinary character of the line, also directly    *)
 (*          before the final LF (a CR LF ending that was kept)             *)
 (*                                                                         *)
@@ -64,11 +64,11 @@ CramGlobMatch(p, w) ==
    \t \a \e (and \b \f \r \v) = control characters, \xHH = byte, \0OO = octal byte,
    \\ = backslash, any other \c stays as the two characters; a dangling backslash is an error.
    Decode returns a sequence of tokens, or <<"ERR">>. *)
-Hex == {"0", "1", "6", "a"}
-HexVal(c) == CASE c = "0" -> 0 [] c = "1" -> 1 [] c = "6" -> 6 [] c = "a" -> 10
+Hex == {"0", "1", "6", "a", "e", "9", "8"}       \* (e, 9, 8 only occur in the two extra expressions `a\xe9`, `a\xe8`)
+HexVal(c) == CASE c = "0" -> 0 [] c = "1" -> 1 [] c = "6" -> 6 [] c = "a" -> 10 [] c = "e" -> 14 [] c = "9" -> 9 [] c = "8" -> 8
 Oct == {"0", "1", "6"}
 \* the bytes that the hex / octal pairs over the alphabet can denote, by token
-ByteTok(v) == CASE v = 97 -> "a" [] v = 10 -> "N" [] v = 13 -> "R" [] v = 9 -> "T" [] v = 7 -> "G" [] v = 27 -> "S" [] v = 92 -> "B"
+ByteTok(v) == CASE v = 97 -> "a" [] v = 10 -> "N" [] v = 13 -> "R" [] v = 233 -> "Z" [] v = 232 -> "Y" [] v = 9 -> "T" [] v = 7 -> "G" [] v = 27 -> "S" [] v = 92 -> "B"
                 [] OTHER -> "#" \o ToString(v)          \* any other byte: "#<decimal value>"
 
 ERR == <<"ERR">>
@@ -96,7 +96,10 @@ Decode(e) ==
             ELSE ERR
         ELSE Cons(<<"B", c>>, Decode(after2))
 
-EscapedMatch(expr, line) == TrimNL(line) = Decode(expr)
+\* Cram compatibility: a trailing ` (no-eol)` of an escaped expression (token "NE") is ignored -- the comparison ignores the
+\* final newline anyway; nothing else of the expression is touched
+StripNE(e) == IF Len(e) > 0 /\ e[Len(e)] = "NE" THEN Front(e) ELSE e
+EscapedMatch(expr, line) == TrimNL(line) = Decode(StripNE(expr))
 
 -----------------------------------------------------------------------------
 (* regular expressions: AST as tagged tuples
@@ -117,7 +120,7 @@ RMatch(r, w) ==
                  \/ (w = <<>> /\ RMatch(r[2], <<>>))
 
 \* text of a regex as a user writes it: parentheses only where precedence needs them
-Special == {"$", "^", ".", "|", "(", ")", "*", "+", "?", "[", "]"}   \* literal use needs a backslash
+Special == {"$", "^", ".", "|", "(", ")", "*", "+", "?", "[", "]", "B"}   \* literal use needs a backslash (a literal backslash is written `\\`)
 Prec(r) == CASE r[1] = "alt" -> 0 [] r[1] = "cat" -> 1 [] r[1] = "rep" -> 2 [] OTHER -> 3
 RECURSIVE Render(_, _)
 Render(r, ctx) ==
@@ -136,9 +139,13 @@ RegexMatch(ast, line) == RMatch(ast, TrimNL(line))
 Sigma == {"a", "b", "E"}
 Words == SeqsUpTo(Sigma, 3)
 Lines == Words \cup {WithNL(w) : w \in Words}
+\* lines that hold a byte that is not UTF-8: for the default glob rule such a byte counts as one character (kind "globz";
+\* the Cram glob rule and regular expressions are not judged on such lines: the statement speaks of characters)
+ZWords == {w \in SeqsUpTo(Sigma \cup {"Z"}, 3) : \E x \in 1..Len(w) : w[x] = "Z"}
+ZLines == ZWords \cup {WithNL(w) : w \in ZWords}
 
-Atoms == {<<"lit", "a">>, <<"lit", "b">>, <<"lit", "E">>, <<"lit", "$">>, <<"any">>, <<"cls", <<"a", "b">>>>}
-RWords == SeqsUpTo(Sigma \cup {"$"}, 3)
+Atoms == {<<"lit", "a">>, <<"lit", "b">>, <<"lit", "E">>, <<"lit", "$">>, <<"lit", "B">>, <<"any">>, <<"cls", <<"a", "b">>>>}
+RWords == SeqsUpTo(Sigma \cup {"$"}, 3) \cup SeqsUpTo(Sigma \cup {"$", "B"}, 2)      \* (a backslash only in short lines)
 RLines == RWords \cup {WithNL(w) : w \in RWords}
 Ops(S, T) == {<<"rep", x, o>> : x \in S, o \in {"*", "?", "+"}}
              \cup {<<"cat", x, y>> : x \in S, y \in T} \cup {<<"alt", x, y>> : x \in S, y \in T}
@@ -149,15 +156,18 @@ Small == {<<"lit", "a">>, <<"lit", "b">>, <<"any">>, <<"rep", <<"lit", "a">>, "*
 Regexes == IF Tier = "quick" THEN L1 \cup Ops(Small, Small) ELSE L1 \cup Ops(Small, L1) \cup Ops(L1, Small)
 
 GlobPatterns == SeqsUpTo(Sigma \cup {"?", "*"}, IF Tier = "quick" THEN 3 ELSE 4)
-CramAlpha    == {"a", "*", "?", "B"}
+CramAlpha    == {"a", "*", "?", "B", "|"}       \* `|` is an ordinary character of a glob
 CramPatterns == SeqsUpTo(CramAlpha, IF Tier = "quick" THEN 3 ELSE 4)
 CramLines    == LET W == SeqsUpTo(CramAlpha, 3) IN W \cup {WithNL(w) : w \in W}
 
 EscAlpha == {"a", "E", "B", "t", "r", "x", "6", "1", "0", "q"}
 EscExprs == SeqsUpTo(EscAlpha, IF Tier = "quick" THEN 4 ELSE 5)
+            \cup {<<"a", "B", "x", "e", "9">>, <<"B", "x", "e", "8", "a">>}       \* bytes that are not UTF-8: compared as bytes
+            \cup {<<"a", "NE">>, <<"a", "B", "t", "NE">>, <<"NE">>}                 \* `text (no-eol) (esc)`
 \* candidate lines for an escaped expression with decoding d (d # ERR) and raw text e
+SwapInvalid(d) == [x \in 1..Len(d) |-> IF d[x] = "Z" THEN "Y" ELSE IF d[x] = "Y" THEN "Z" ELSE d[x]]
 EscCands(e, d) == {d, WithNL(d), Front(d), WithNL(Front(d)), Append(d, "a"), WithNL(Append(d, "a")),
-                   e, WithNL(e), <<"a">> \o d, <<>>, <<NL>>}
+                   e, WithNL(e), <<"a">> \o d, <<>>, <<NL>>, WithNL(SwapInvalid(d))}
 
 PlainAlpha == {"a", "E", "B", "*", ".", " ", "("}
 PlainExprs == SeqsUpTo(PlainAlpha, 3)
@@ -178,6 +188,7 @@ Anchored(a, e) == CASE a = "both" -> <<"^">> \o e \o <<"$">> [] a = "left" -> <<
 Init == \/ kind = "regex"  /\ ast \in Regexes /\ expr = Render(ast, 0)
         \/ kind = "regex_anch" /\ ast \in L1 /\ \E a \in {"both", "left", "right"} : expr = Anchored(a, Render(ast, 0))
         \/ kind = "glob"   /\ expr \in GlobPatterns /\ ast = <<>>
+        \/ kind = "globz"  /\ expr \in SeqsUpTo(Sigma \cup {"?", "*"}, 2) /\ ast = <<>>
         \/ kind = "cramglob" /\ expr \in CramPatterns /\ ast = <<>>
         \/ kind = "escaped" /\ expr \in EscExprs /\ ast = <<>>
         \/ kind = "equal"  /\ expr \in PlainExprs /\ ast = <<>>
@@ -191,21 +202,22 @@ ValidLine(l) == \A x \in 1..(Len(l) - 1) : l[x] # NL
 \* the candidate lines and the documented verdict for each
 AllCands == CASE kind \in {"regex", "regex_anch"} -> RLines
            [] kind = "glob" -> Lines
+           [] kind = "globz" -> ZLines
            [] kind = "cramglob" -> CramLines
-           [] kind = "escaped" -> (IF Decode(expr) = ERR THEN {} ELSE EscCands(expr, Decode(expr)))
+           [] kind = "escaped" -> (IF Decode(StripNE(expr)) = ERR THEN {} ELSE EscCands(StripNE(expr), Decode(StripNE(expr))) \cup {Append(Decode(StripNE(expr)), " "), WithNL(Append(Decode(StripNE(expr)), " "))})
            [] kind = "escglob" -> (IF Decode(expr) = ERR THEN {} ELSE EGLines)
            [] OTHER -> PlainCands(expr)
 \* every LF-terminated candidate also with a CR directly before the LF (a kept CR LF ending): the CR belongs to the line
 WithCR(l) == Front(l) \o <<"R", NL>>
 Cands == LET base == {l \in AllCands : ValidLine(l)} IN base \cup {WithCR(l) : l \in {x \in base : Len(x) > 0 /\ x[Len(x)] = NL}}
 Expected(line) == CASE kind \in {"regex", "regex_anch"} -> RegexMatch(ast, line)
-                    [] kind = "glob" -> GlobMatch(expr, TrimNL(line))
+                    [] kind \in {"glob", "globz"} -> GlobMatch(expr, TrimNL(line))
                     [] kind = "cramglob" -> CramGlobMatch(expr, TrimNL(line))
                     [] kind = "escaped" -> EscapedMatch(expr, line)
                     [] kind = "escglob" -> GlobMatch(Decode(expr), TrimNL(line))
                     [] kind = "equal" -> EqualMatch(expr, line)
                     [] kind = "no-eol" -> NoEolMatch(expr, line)
-MustFail == kind \in {"escaped", "escglob"} /\ Decode(expr) = ERR
+MustFail == kind \in {"escaped", "escglob"} /\ Decode(StripNE(expr)) = ERR
 
 -----------------------------------------------------------------------------
 (* sanity theorems about the reference itself, checked by TLC over the enumeration *)
